@@ -268,4 +268,67 @@ def c07(chk):
                       note=f"MC_Sep.tla: sequences up to length {maxlen} x separator set '{sepset}'")
 
 
-CHECKS = {"C07": c07, "C06": c06, "C09": c09, "C08": c08, "C11": c11, "C12": c12, "C04": c04, "C10": c10, "C03": c03, "C01": c01, "C02": c02, "C05": c05, "C13": c13, "C14": c14}
+def c16(chk):
+    chk.rule = ("node half: every source of the token / string-body enumerations is deserialised through RON and compared with "
+                "build_operator_tree (equal trees / equal messages); context half: MC_Ctx histories with a serialise + "
+                "deserialise step after every reachable state, and every pool value bound in a context with a function and "
+                "either switch position; non-trivial = distinct sources + distinct histories containing a serde step + values")
+    chk.trusted.append("the `ron` 0.8 text format (floats are written in Rust's shortest round-trip form)")
+    hbin, diag = vf.build_serde_harness(chk.outdir)
+    if hbin is None:
+        chk.add_failure({"check": "serde_impls_missing", "detail": "HashMapContext<DefaultNumericTypes> / Value do not implement the "
+                         "serde traits with the `serde` feature: the C16 harness does not compile (see the diagnostic)",
+                         "case": {"kind": "compile", "diagnostic": diag}, "observed": None, "finding_key": None})
+        chk.states = chk.transitions = 1
+        chk.samples.append({"kind": "compile", "diagnostic": diag})
+        return
+    rel = {"serde_node", "serde_context", "panic"}
+    quick = chk.tier == "quick"
+    info, summ = vf.run_model("serde_tokens", "MC_Tokens.tla", {"MaxLen": 4 if quick else 5, "AlphaName": "core"}, chk.outdir,
+                              harness=hbin, workers=8)
+    chk.add_model(info, summ, rel, ["node_nontrivial"], note="token sequences (all classes) through ron::from_str::<Node>")
+    info, summ = vf.run_model("serde_strings", "MC_Lex.tla", {"Family": "strings", "MaxLen": 4 if quick else 5}, chk.outdir,
+                              harness=hbin, workers=8)
+    chk.add_model(info, summ, rel, ["node_nontrivial"], note="string bodies with quotes, backslashes, newlines, non-ASCII")
+    prims = vf.make_prims("ctx", chk.outdir, extra={"floats": CTX_FLOATS})
+    info, summ = vf.run_model("serde_ctx", "MC_Ctx.tla", {"Size": "small", "WithSerde": True}, chk.outdir, harness=hbin,
+                              invariants=("TypeOK",), properties=CTX_PROPS, view="View", constraint="InDomain", workers=12,
+                              env_extra={"PRIMS": prims})
+    chk.add_model(info, summ, rel, ["history_with_serde"], note="MC_Ctx.tla with the serde round trip as an operation")
+    info, summ = vf.run_model("serde_pool", "MC_SerdePool.tla", {"PoolName": "quick" if quick else "full"}, chk.outdir, harness=hbin,
+                              workers=4)
+    chk.add_model(info, summ, rel, ["value_nontrivial"], note="every pool value x both switch positions")
+
+
+def c15(chk):
+    chk.rule = ("type level: Send + Sync assertions for the eight public types, decided by the Rust type checker; design level: "
+                "Conc.tla, all interleavings of 3 reader threads x 2 evaluations x 3 programs with an exclusive writer; code level: "
+                "2-16 real threads sharing Arc'd trees and one context, every distinct (program, entry point, result) validated "
+                "against Trace_Api.tla; non-trivial = distinct recorded triples")
+    chk.assumptions.append("real schedules are sampled, not enumerated; #![forbid(unsafe_code)] and the type-level half carry "
+                           "most of the weight, as the property itself says")
+    diag = vf.build_sendsync(chk.outdir)
+    if diag:
+        chk.add_failure({"check": "send_sync", "detail": "a public type is not Send + Sync: the compile-time assertions of "
+                         "rust/sendsync fail (see the diagnostic)", "case": {"kind": "compile", "diagnostic": diag},
+                         "observed": None, "finding_key": None})
+        chk.states = chk.transitions = 1
+        chk.samples.append({"kind": "compile", "diagnostic": diag})
+        return
+    vf.build_harness()
+    quick = chk.tier == "quick"
+    prims = vf.make_prims("conc", chk.outdir, extra={"floats": CTX_FLOATS})
+    info, summ = vf.run_model("conc", "Conc.tla", {"NThreads": 3, "MaxEvals": 2, "MaxWrites": 1 if quick else 2}, chk.outdir,
+                              invariants=("SequentialResults", "StableWhileReading"), properties=("ReadersDoNotMutate",),
+                              workers=12 if quick else 16, env_extra={"PRIMS": prims}, timeout=3000)
+    chk.add_model(info, summ, {"panic"}, [], note="Conc.tla: every interleaving of the reader threads and the exclusive writer")
+    for nthreads in ((2, 8) if quick else (2, 4, 8, 16)):
+        ev, rej = chk.add_traces(f"threads{nthreads}", "threads", 5000 if quick else 100000, 2 if quick else 4, "threads",
+                                 extra_args=("--threads", str(nthreads)),
+                                 note=f"{nthreads} threads, each evaluating a seeded mix of 31 programs through all immutable entry points")
+        chk.nontrivial += ev
+    chk.samples.append({"kind": "threads", "case": "8 threads x 5000 evaluations of e.g. `f(x) * 2`, `x = 2` (ContextNotMutable), "
+                        "`max(x, 3)` on one Arc<HashMapContext>; distinct (program, entry point, result) triples become eval events"})
+
+
+CHECKS = {"C15": c15, "C16": c16, "C07": c07, "C06": c06, "C09": c09, "C08": c08, "C11": c11, "C12": c12, "C04": c04, "C10": c10, "C03": c03, "C01": c01, "C02": c02, "C05": c05, "C13": c13, "C14": c14}
